@@ -305,6 +305,21 @@ WITNESSES: list[tuple[str, str, dict[str, Any], list[Any], dict[str, Any]]] = [
 ]
 
 
+# implementation faults (not `legal`: outside C01's comparison) -- run everywhere and compared with the models only, so that
+# C04 / C10 / C41 can rely on M_Wire's init_outcome / http fault events
+_BAD = {"init_logs": [["INFO", "il", {}]], "init": "bad_return", "header": 3, "steps": []}
+_NOHDR = {"init_logs": [["INFO", "il", {}]], "init": "ok", "header": None, "steps": [_OK]}
+FAULTS: list[tuple[str, dict[str, Any], list[Any]]] = [
+    ("producer", _BAD, ["iterate", "producer", None, 0, "stop"]),
+    ("producer", _BAD, ["iterate", "producer_h", None, 0, "stop"]),
+    ("producer", _BAD, ["iterate", "producer", None, 0, "close"]),
+    ("producer", _NOHDR, ["iterate", "producer_h", None, 2, "close"]),
+    ("exchange", _NOHDR, ["exchange", "exchange_h", None, 1, "close"]),
+    ("exchange", _BAD, ["exchange", "exchange", None, 1, "cancel"]),
+    ("exchange", _BAD, ["exchange", "exchange_h", None, 0, "close"]),
+]
+
+
 def translate(ctx: Any) -> None:
     """Optional regenerated leg: ordered except-clauses of serve_one/_serve_unary/_serve_stream -> gen/G_WireHandlers.v"""
     from translate import t_excflow
@@ -330,6 +345,9 @@ def run(ctx: Any) -> None:
     for name, kind, prog, sc, cfg in WITNESSES:
         pid += 1
         cases.append({"pid": pid, "kind": kind, "prog": prog, "script": sc, "mode": "record", "witness": name, "wcfg": cfg})
+    for kind, prog, sc in FAULTS:
+        pid += 1
+        cases.append({"pid": pid, "kind": kind, "prog": prog, "script": sc, "mode": "record", "fault": True})
     for _ in range(n_cases):
         pid += 1
         kind, prog = gen_program(rng)
@@ -380,10 +398,12 @@ def run(ctx: Any) -> None:
         for k in kinds[1:]:
             if traces[k] != pipe:
                 ctx.violation(f"socket-transports-differ:{k}", f"pipe and {k} traces differ", {**repl, "pipe": pipe, k: traces[k]})
-        if any(e[0] == "blocked" for e in pipe):
+        if any(e[0] == "blocked" for e in pipe) and not c.get("fault"):
             ctx.violation("client-blocked", "a legal script blocked on the pipe transport", {**repl, "pipe": pipe})
         # ---- HTTP
         cfgs = http_cfgs if "witness" not in c else [{"compression": None, "externalize": False, **c["wcfg"]}]
+        if c.get("fault"):
+            cfgs = [{"max_response_bytes": cap, "compression": None, "externalize": False} for cap in (None, 1, BIG)]
         hbycap: dict[Any, list[Any]] = {}
         for cfg in cfgs:
             tr = norm(I.run_case("http", cfg, sc, on_log=mode, timeout=8.0))
@@ -394,6 +414,9 @@ def run(ctx: Any) -> None:
                               {**repl, "cfg": cfg, "a": hbycap[cap], "b": tr})
             hbycap.setdefault(cap, tr)
             # (a) the property itself on the implementation
+            if c.get("fault"):
+                ctx.tally("excluded", "implementation-fault (not legal; model correspondence only)")
+                continue
             if over_hard_cap(kind, cfg, tr):
                 ctx.tally("excluded", "unary-or-exchange-over-hard-cap")
                 continue
@@ -416,7 +439,7 @@ def run(ctx: Any) -> None:
         # ---- (b) model inputs
         ps = f"({c_prog(kind, prog)}, {c_script(sc, mode)})"
         model_pipe.append((ps, c_trace(pipe)))
-        model_legal.append((ps, "true"))
+        model_legal.append((ps, "false" if c.get("fault") else "true"))
         for cap in (None, 1, BIG):
             if cap in hbycap:
                 model_http.append((f"({c_cap(cap)}, {ps})", c_trace(hbycap[cap])))
@@ -425,7 +448,7 @@ def run(ctx: Any) -> None:
     ctx.log(f"implementation runs: {ctx.counters.get('impl_runs', 0)} in {time.time() - t_impl:.1f}s")
     ctx.count("external_uploads", len(I.MemStorage.data) - uploads_before)
     ctx.obligation("env:externalisation-exercised", "environment", len(I.MemStorage.data) > uploads_before, "no batch was externalised: the externalize leg is vacuous")
-    for smp in cases[len(WITNESSES):len(WITNESSES) + 4]:
+    for smp in cases[len(WITNESSES) + len(FAULTS):len(WITNESSES) + len(FAULTS) + 4]:
         ctx.sample({"program": smp["prog"], "script": smp["script"], "on_log": smp["mode"], "pipe_trace": smp.get("pipe")})
 
     # model side
